@@ -14,6 +14,8 @@ def install() -> None:
     if _installed:
         return
     _installed = True
+    import sys
+    sys.unraisablehook = lambda unraisable: None   # leaked simulated files are closed by finalizers; keep stderr clean
     from srctools import vmf
 
     # CopySet[Entity] iteration order follows hash(); Entity uses identity hashing, i.e. heap
